@@ -1,2 +1,97 @@
-(* C14 -- placeholder while the correspondence is brought up; theorems follow. *)
-From LK Require Import Lib.StrDict Gen.C14_alias Model.C14_heap.
+(* C14 -- Built pipelines and datasets are immutable; derived objects never alter them.
+   Property theorems only; each is closed by `exact <lemma>` and followed by Print Assumptions.
+   The alias table (how Pipeline.modify / builder.build / clone / DatasetBuilder(ds) / build_container obtain the
+   mutable dictionaries of their source) is the GENERATED one (Gen/C14_alias.v): the model branches on it
+   and the proofs pin every entry to `Copy`, so these statements are re-checked against the source on
+   every run.
+
+   Model: an explicit heap of mutable dictionaries (a component's wiring, a schema's entities and relationships
+   with everything below them), a second heap of component instances, objects hold references.  Builder
+   operations are arbitrary in-place edits through the builder's own references (PBWire / DBEnts / DBRels take
+   any function), replacement of immutable parts, or allocation.
+
+   Property text -> theorem:
+   * "Once built, a pipeline or dataset never changes: for every subsequent sequence of operations - obtaining
+     a modifying builder from it and rewiring, replacing, adding or aliasing components; cloning it and
+     training or running the clone; creating a dataset builder from it and adding or filtering records,
+     entities or attributes; splitting it; or continuing to use the builder that produced it - its
+     configuration, hash, wiring, schema, identifier numbering, data views, saved form and run results
+     remain exactly what they were"
+        -> ownership_invariant (no dictionary reachable from a built object is writable through any builder,
+           after any history), built_dataset_frozen, built_pipeline_frozen (every observation constant along
+           every continuation in which that pipeline itself is not trained and trained pipelines own their
+           trainable instances), built_pipeline_config_frozen (configuration part: unconditionally)
+   * "Components likewise leave the item lists they are given unchanged"
+        -> run_and_train_leave_data_alone_partial (in the model running writes nothing and training writes
+           component instances only; that the shipped components do not write through their ItemList
+           arguments is checked by the oracle on every component call, not proved) *)
+From Coq Require Import String List Bool.
+From LK Require Import Lib.StrDict Gen.C14_alias Model.C14_heap Proofs.C14_heap Proofs.C14_frozen Proofs.C14_main.
+Import ListNotations.
+Open Scope string_scope.
+
+Theorem ownership_invariant : forall ops s, inv s -> inv (run s ops).
+Proof. exact ownership_l. Qed.
+Print Assumptions ownership_invariant.
+
+Theorem built_dataset_frozen : forall ops1 ops2 j d,
+  nth_error (st_dsets (run init ops1)) j = Some d ->
+  nth_error (st_dsets (run (run init ops1) ops2)) j = Some d /\
+  obs_d (run (run init ops1) ops2) d = obs_d (run init ops1) d.
+Proof. exact dataset_frozen_from_init_l. Qed.
+Print Assumptions built_dataset_frozen.
+
+Theorem built_pipeline_frozen : forall ops1 ops2 j p,
+  nth_error (st_pipes (run init ops1)) j = Some p ->
+  hist_ok (run init ops1) ops2 -> never_trains j ops2 ->
+  nth_error (st_pipes (run (run init ops1) ops2)) j = Some p /\
+  obs_p (run (run init ops1) ops2) p = obs_p (run init ops1) p.
+Proof. exact pipeline_frozen_from_init_l. Qed.
+Print Assumptions built_pipeline_frozen.
+
+Theorem built_pipeline_config_frozen : forall ops1 ops2 j p,
+  nth_error (st_pipes (run init ops1)) j = Some p ->
+  let s1 := run init ops1 in let s2 := run s1 ops2 in
+  nth_error (st_pipes s2) j = Some p /\
+  po_edges (obs_p s2 p) = po_edges (obs_p s1 p) /\ po_name (obs_p s2 p) = po_name (obs_p s1 p) /\
+  po_aliases (obs_p s2 p) = po_aliases (obs_p s1 p) /\ po_default (obs_p s2 p) = po_default (obs_p s1 p).
+Proof. exact pipeline_config_frozen_from_init_l. Qed.
+Print Assumptions built_pipeline_config_frozen.
+
+Theorem run_and_train_leave_data_alone_partial : forall s j label codes,
+  step s (PRun j) = s /\
+  st_heap (step s (PTrain j label codes)) = st_heap s /\ st_dsets (step s (PTrain j label codes)) = st_dsets s /\
+  st_pipes (step s (PTrain j label codes)) = st_pipes s.
+Proof. exact run_train_readonly_l. Qed.
+Print Assumptions run_and_train_leave_data_alone_partial.
+
+(* non-vacuity: a dataset and a pipeline are built; then the pipeline is modified and rewired, cloned and the clone
+   trained, the producing builders keep being used, a builder derived from the dataset adds a class -- the history
+   is admissible and both originals are observed unchanged *)
+Example c14_nonvacuous :
+  let ops1 := [DNew [("name", "=d0")] [("item", "{}")]; DBEnts 0 (fun _ => [("item", "{int}"); ("user", "{int}")]);
+               DBRels 0 (fun _ => [("rating", "{user,item}")]); DBTables 0 (fun _ => [("item", "t1"); ("user", "t2"); ("rating", "t3")]);
+               DBuild 0;
+               PNew (Some "p"); PBNode 0 "a" NSIn; PBNode 0 "b" NSIn; PBNode 0 "n" (NSCtor "vcomp:Learner");
+               PBWire 0 "n" (fun w => dset "x" "a" w); PBAlias 0 (fun a => dset "rec" "n" a); PBuild 0] in
+  let ops2 := [PModify 0; PBWire 1 "n" (fun w => dset "x" "b" w); PBWire 0 "n" (fun w => dset "x" "b" w);
+               PClone 0; PTrain 1 "d0" ["vcomp:Learner"]; PBuild 1; PRun 2;
+               DFrom 0; DBEnts 1 (fun e => dset "tag" "{}" e); DBEnts 0 (fun e => dset "genre" "{}" e); DBuild 1; DBuild 0] in
+  let s1 := run init ops1 in let s2 := run s1 ops2 in
+  hist_ok s1 ops2 /\ never_trains 0 ops2 /\
+  exists p d, nth_error (st_pipes s1) 0 = Some p /\ nth_error (st_dsets s1) 0 = Some d /\
+    po_edges (obs_p s1 p) = [("n", Some [("x", "a")])] /\ obs_p s2 p = obs_p s1 p /\ obs_d s2 d = obs_d s1 d /\
+    length (st_pipes s2) = 3 /\ length (st_dsets s2) = 3 /\
+    (exists q, nth_error (st_pipes s2) 2 = Some q /\ po_edges (obs_p s2 q) = [("n", Some [("x", "b")])]).
+Proof.
+  cbv zeta. split.
+  - cbn. repeat split; try exact I. intros p E k q Hk Eq r Hr Hq.
+    vm_compute in E. injection E as <-. vm_compute in Hr. destruct Hr as [<-|[]].
+    destruct k as [|[|k]].
+    + vm_compute in Eq. injection Eq as <-. vm_compute in Hq. destruct Hq as [Hq|[]]. discriminate.
+    + congruence.
+    + vm_compute in Eq. destruct k; discriminate.
+  - split; [repeat constructor; cbn; congruence|].
+    eexists. eexists. split; [vm_compute; reflexivity|]. split; [vm_compute; reflexivity|].
+    repeat split; try (vm_compute; reflexivity). eexists. split; vm_compute; reflexivity.
+Qed.
